@@ -12,7 +12,9 @@ link_extra = ("-Wl,--wrap=malloc", "-Wl,--wrap=free")
 rule = ("scripts = 'i reset' followed by identifier ops (new <size> | alloc <len> | node <len> | set k <hex|rep:hh:n|null> [len] | "
         "copy k <j|null> | cmp k <bytes> [len] | ineq k j | free k | tinit <j|null> | tfini k | setself k off len (name inside the "
         "identifier's own content) | locate k pos name / next k name (mpt_node_locate/mpt_node_next over the list of node identifiers)); "
-        "second part: the C++ class mpt::identifier (xi new/copyctor/set/assign/equal/name/free); stream 1 = every triple "
+        "second part: the C++ class mpt::identifier (xi new/copyctor/set/assign/equal/name/free) and the item containers built on it "
+        "(xi gappend j = item_group::append(const identifier *, metatype *), xi aappend name [len] = item_array::append: the stored "
+        "item's identifier becomes a new slot and is read back; names with zero bytes inside/at the end and zero-filled charset-0 content); stream 1 = every triple "
         "(storage size in {16,17,20,32,64,128,256,300, identifier_new, node_new}, old length, new length in "
         "{0,1,max-2,max-1,max,max+1,300,65534,65535(,65536)}) x {set, copy from a second identifier of every other size, "
         "zero-pointer set} x compare/inequal/free; stream 2 = every history of length <= 4 (quick: 3, plus 4 over a reduced "
@@ -26,7 +28,9 @@ assumptions = [
     "mpt_identifier_compare with a zero name pointer is outside the property (the spec accepts any verdict there)",
 ]
 trusted = ["hand-written model MptModel/Impl/Ident.lean tied to mptcore/misc/identifier.c, node/node_new.c by harness/drv_ident.c",
-           "mpt++/identifier.cpp is exercised as a second driver part against the same model (its methods are the C functions on this)"]
+           "mpt++/identifier.cpp is exercised as a second driver part against the same model (its methods are the C functions on this); "
+           "item_group::append / item_array::append (mpt++/item_group.cpp, mptcore/array.h) are driven as 'new 24-byte identifier, then copy / set' "
+           "of the same model (array.cpp and item_group.cpp are compiled into the driver translation unit with -fno-sanitize=vptr)"]
 
 
 def corpus(chk):
@@ -194,7 +198,7 @@ class _XX:
     driver = "drvxx_ident"
     cxx = True
     fixed_lines = 1
-    link_extra = ("-Wl,--wrap=malloc", "-Wl,--wrap=free")
+    link_extra = ("-Wl,--wrap=malloc", "-Wl,--wrap=free", "-fno-sanitize=vptr")
 
     @staticmethod
     def corpus(chk):
@@ -221,6 +225,26 @@ class _XX:
                                     ["xi reset", "xi new %d" % size, "xi new 40", "xi set 0 %s" % _data(old), "xi set 1 %s" % nd, "xi assign 0 1",
                                      "xi equal 0 %s" % nd, "xi copyctor 0", "xi copyctor 1", "xi name 2", "xi assign 1 2", "xi assign 2 2", "xi assign 3 0",
                                      "xi set 1 %s" % _data(2, 0x70), "xi equal 2 %s" % nd, "xi free 1", "xi free 0", "xi name 3", "xi free 2", "xi free 3"]))
+        # item_group::append(const identifier *, metatype *) / item_array::append(T *, name, len): the item stored gets a
+        # copy of the identifier / the name; names with zero bytes inside or at the end, zero-filled (charset 0) content,
+        # lengths around the inline limits of the source (12, 28, 60) and of the item (20)
+        names = ["-", "61", "6162006364", "7461696c00", "00", "0000", "006100", _data(11), _data(12), _data(13), _data(19), _data(20), _data(21),
+                 _data(5) + "00" + _data(5)[:10], "78" * 30 + "00" + "79" * 30, _data(100), _data(300), "c3b6c39f", "ff80",
+                 "61" * 18 + "00", "61" * 19 + "00", "61" * 10 + "00", "61" * 11 + "00"]
+        for size in (16, 32, 64):
+            for nm in names:
+                n = len(nm) // 2 if nm != "-" and not nm.startswith("rep:") else (0 if nm == "-" else int(nm.split(":")[2]))
+                out.append(("xx:group:%d:%s" % (size, nm[:24]),
+                            ["xi reset", "xi new %d" % size, "xi set 0 %s %d" % (nm, n), "xi gappend 0", "xi name 1", "xi equal 1 %s %d" % (nm, n),
+                             "xi set 0 %s" % _data(3, 0x70), "xi equal 1 %s %d" % (nm, n), "xi gappend 1", "xi assign 0 2", "xi free 1", "xi name 2",
+                             "xi aappend %s %d" % (nm, n), "xi aappend %s -1" % nm, "xi name 3", "xi gappend 3", "xi gappend 4",
+                             "xi free 2", "xi free 0", "xi free 3", "xi free 4", "xi free 5", "xi free 6"]))
+            for ln in (0, 1, 5, 11, 12, 13, 19, 20, 21, 28, 29, 100, 65535):
+                out.append(("xx:groupraw:%d:%d" % (size, ln),
+                            ["xi reset", "xi new %d" % size, "xi set 0 null %d" % ln, "xi gappend 0", "xi name 1", "xi equal 1 %s" % _data(min(ln, 40)),
+                             "xi copyctor 1", "xi gappend 2", "xi free 1", "xi free 0", "xi free 3", "xi free 2"]))
+        out.append(("xx:group:refused", ["xi reset", "xi aappend rep:61:65535", "xi aappend rep:61:65534", "xi aappend rep:61:70000", "xi aappend null 3",
+                                         "xi gappend 0", "xi gappend 5", "xi gappend", "xi free 0", "xi free 1", "xi aappend - 0", "xi free 2"]))
         out.append(("xx:badop", ["xi reset", "xi new 15", "xi new 16", "xi copyctor 1", "xi copyctor null", "xi assign 0 null", "xi assign 0 1", "xi name 1",
                                  "xi equal 0 null", "xi set 0 null", "xi frob", "xi free 0", "xi name 0"]))
         r = gen.rng(id, tier, seed, "xx-random")
@@ -238,11 +262,25 @@ class _XX:
                 a = r.choice(live)
                 mx = caps[a]
                 ln = max(0, r.choice([0, 1, 4, 5, 9, mx - 1, mx, mx + 1, mx + 8, 300, r.randrange(400)]))
-                kind = r.choice(["set", "set", "null", "assign", "assign", "copyctor", "equal", "name", "free"])
+                kind = r.choice(["set", "set", "null", "assign", "assign", "copyctor", "equal", "name", "free", "gappend", "aappend", "setz"])
                 if kind == "set":
                     lines.append("xi set %d %s%s" % (a, _data(ln, r.choice([0x61, 0x62])), r.choice(["", "", " -1"])))
                 elif kind == "null":
                     lines.append("xi set %d null %d" % (a, r.choice([0, 0, ln])))
+                elif kind == "setz":
+                    # a name with a zero byte inside / at the end
+                    z = r.choice([1, 4, 11, 12, 19, 20, ln % 60])
+                    lines.append("xi set %d %s" % (a, "61" * z + "00" + "62" * r.choice([0, 0, 1, 7, 20])))
+                elif kind == "gappend":
+                    if len(caps) < 12:
+                        lines.append("xi gappend %d" % a)
+                        live.append(len(caps))
+                        caps.append(20)
+                elif kind == "aappend":
+                    if len(caps) < 12 and ln < 65535:
+                        lines.append("xi aappend %s%s" % (_data(ln, 0x63), r.choice(["", " -1", " %d" % (ln // 2)])))
+                        live.append(len(caps))
+                        caps.append(20)
                 elif kind == "assign":
                     lines.append("xi assign %d %d" % (a, r.choice(live)))
                 elif kind == "copyctor":
